@@ -175,7 +175,19 @@ func waitQuiet(max time.Duration) (left []string, dump string) {
 			return nil, ""
 		}
 		if time.Now().After(deadline) {
-			return st, d
+			// Only a goroutine parked in a channel operation is a leak by its state alone: nobody can
+			// wake it. A goroutine that is still runnable is either slow (loaded machine) or running
+			// on, and running on is judged by the operation counts, not by the clock.
+			var stuck []string
+			for _, x := range st {
+				if x == "chan receive" || x == "chan send" || x == "select" {
+					stuck = append(stuck, x)
+				}
+			}
+			if len(stuck) == 0 && parked(st) {
+				return nil, ""
+			}
+			return stuck, d
 		}
 		time.Sleep(500 * time.Microsecond)
 	}
